@@ -10,6 +10,7 @@ use ark_crypto_primitives::{
     merkle_tree::{ByteDigestConverter, Config},
 };
 use ark_ff::{One, PrimeField, UniformRand, Zero};
+use ark_poly_commit::PCCommitmentState as _;
 use ark_poly::{
     multivariate::{SparsePolynomial, SparseTerm, Term},
     univariate::DensePolynomial,
@@ -114,12 +115,31 @@ pub trait Scheme: 'static {
     const HIDING: bool;
     /// hiding bound 0 is refused (PST13)
     const HIDING_MIN: usize = 0;
+    /// degree bounds must be announced to `trim` (Marlin, Sonic); IPA accepts any bound up to the
+    /// supported degree
+    const BOUNDS_FROM_KEY: bool = true;
+    /// `setup(0, ..)` is refused with `DegreeIsZero` (the KZG-based setups); IPA's transparent
+    /// setup answers with a one-element key that does support constants
+    const SETUP_REFUSES_ZERO: bool = false;
+    /// the degree the committer key really supports (IPA rounds up to 2^k - 1)
+    fn true_supported(ck: &<Self::PC as PolynomialCommitment<Fr, Self::P>>::CommitterKey, s: &Sizes) -> usize {
+        let _ = ck;
+        s.supported
+    }
     fn sizes(rng: &mut Rng, thorough: bool) -> Sizes;
     fn rand_poly(rng: &mut Rng, s: &Sizes, degree: usize) -> Self::P;
     /// zero / constant polynomials in the scheme's polynomial type (None = not expressible)
     fn special_poly(rng: &mut Rng, s: &Sizes, kind: usize) -> Option<(Self::P, &'static str)>;
     fn rand_point(rng: &mut Rng, s: &Sizes) -> <Self::P as Polynomial<Fr>>::Point;
     fn is_constant(p: &Self::P) -> bool;
+    /// multivariate: does the polynomial mention a variable with index >= nv?
+    fn uses_var_at_least(_p: &Self::P, _nv: usize) -> bool {
+        true
+    }
+}
+
+fn lp_poly_ref<P: Polynomial<Fr>>(lp: &LabeledPolynomial<Fr, P>) -> &P {
+    lp.polynomial()
 }
 
 type Pt<S> = <<S as Scheme>::P as Polynomial<Fr>>::Point;
@@ -145,6 +165,7 @@ impl Scheme for Marlin {
     const NAME: &'static str = "marlin";
     const BOUNDS: bool = true;
     const HIDING: bool = true;
+    const SETUP_REFUSES_ZERO: bool = true;
     fn sizes(rng: &mut Rng, thorough: bool) -> Sizes {
         let max_degree = range(rng, 2, if thorough { 64 } else { 24 });
         Sizes { max_degree, supported: range(rng, 1, max_degree), num_vars: None }
@@ -169,6 +190,7 @@ impl Scheme for Sonic {
     const NAME: &'static str = "sonic";
     const BOUNDS: bool = true;
     const HIDING: bool = true;
+    const SETUP_REFUSES_ZERO: bool = true;
     fn sizes(rng: &mut Rng, thorough: bool) -> Sizes {
         Marlin::sizes(rng, thorough)
     }
@@ -192,6 +214,11 @@ impl Scheme for Ipa {
     const NAME: &'static str = "ipa";
     const BOUNDS: bool = true;
     const HIDING: bool = true;
+    const BOUNDS_FROM_KEY: bool = false;
+    fn true_supported(ck: &<IpaPC as PolynomialCommitment<Fr, UniPoly>>::CommitterKey, _: &Sizes) -> usize {
+        use ark_poly_commit::PCCommitterKey;
+        ck.supported_degree()
+    }
     fn sizes(rng: &mut Rng, thorough: bool) -> Sizes {
         let max_degree = range(rng, 2, if thorough { 64 } else { 20 });
         Sizes { max_degree, supported: range(rng, 1, max_degree), num_vars: None }
@@ -263,6 +290,9 @@ impl Scheme for Pst13 {
     }
     fn is_constant(p: &MvPoly) -> bool {
         p.terms().iter().all(|(c, t)| c.is_zero() || t.is_constant())
+    }
+    fn uses_var_at_least(p: &MvPoly, nv: usize) -> bool {
+        p.terms().iter().any(|(_, t)| t.vars().iter().any(|v| *v >= nv))
     }
 }
 pub struct Hyrax;
@@ -972,4 +1002,388 @@ pub fn lc_unused(_: &LinearCombination<Fr>) {}
 #[allow(dead_code)]
 pub fn one() -> Fr {
     Fr::one()
+}
+
+// ------------------------------------------------------------------------------------------------
+// C07 at trait level
+// ------------------------------------------------------------------------------------------------
+fn ser<T: CanonicalSerialize>(x: &T) -> Vec<u8> {
+    let mut v = vec![];
+    x.serialize_compressed(&mut v).unwrap();
+    v
+}
+
+pub fn c07<S: Scheme>(ctx: &mut Ctx, n: usize)
+where
+    Pt<S>: Clone + Ord + std::fmt::Debug,
+    Comm<S>: Clone,
+{
+    if !S::HIDING {
+        return;
+    }
+    for i in 0..n {
+        let id = format!("C07/{}/{}", S::NAME, i);
+        if !ctx.selected(&id) {
+            continue;
+        }
+        let mut rng = rng_for(ctx.seed, &format!("C07/{}", S::NAME), i as u64);
+        let sizes = S::sizes(&mut rng, ctx.thorough);
+        let pp = match S::PC::setup(sizes.max_degree, sizes.num_vars, &mut rng) {
+            Ok(p) => p,
+            Err(_) => continue,
+        };
+        let deg = range(&mut rng, 1, sizes.supported);
+        let poly = S::rand_poly(&mut rng, &sizes, deg);
+        let bound = if S::BOUNDS && coin(&mut rng) { Some(range(&mut rng, poly.degree().max(1), sizes.supported)) } else { None };
+        let hi = bound.unwrap_or(sizes.supported).min(sizes.supported).max(1);
+        let h = range(&mut rng, 1, hi);
+        let bounds_vec = bound.map(|b| vec![b]);
+        let (ck, _vk) = match S::PC::trim(&pp, sizes.supported, sizes.supported, bounds_vec.as_deref()) {
+            Ok(k) => k,
+            Err(_) => continue,
+        };
+        let lp_h = LabeledPolynomial::new("p".to_string(), poly.clone(), bound, Some(h));
+        let lp_n = LabeledPolynomial::new("p".to_string(), poly.clone(), bound, None);
+        let seed_rng = rng.clone();
+        let mut r1 = CountRng::new(seed_rng.clone());
+        let c1 = guarded(|| S::PC::commit(&ck, [&lp_h], Some(&mut r1)));
+        let (c1, _st1) = match c1 {
+            Ok(Ok(x)) => x,
+            other => {
+                ctx.rep.expect_fail(&id, &format!("{}/hiding-commit-refused", S::NAME),
+                    &format!("in-domain hiding commit refused: {:?}", other.map(|r| r.map(|_| ()).map_err(|e| err_kind(&e)))),
+                    format!("# scheme: {}\n# case {}\n# sizes {:?} bound {:?} h {}\n", S::NAME, id, sizes, bound, h));
+                continue;
+            }
+        };
+        let mut r1b = seed_rng.clone();
+        let (c1b, _) = S::PC::commit(&ck, [&lp_h], Some(&mut r1b)).unwrap();
+        let mut r2 = rng_for(ctx.seed ^ 0x5eed, &format!("C07/{}/other", S::NAME), i as u64);
+        let (c2, _) = S::PC::commit(&ck, [&lp_h], Some(&mut r2)).unwrap();
+        if r1.bytes == 0 {
+            ctx.rep.expect_fail(&id, &format!("{}/hiding-without-caller-rng", S::NAME), "hiding commit drew nothing from the caller's RNG",
+                format!("# scheme: {}\n# case {}\n", S::NAME, id));
+        }
+        if ser(c1[0].commitment()) != ser(c1b[0].commitment()) {
+            ctx.rep.expect_fail(&id, &format!("{}/same-seed-differs", S::NAME), "same RNG seed gave a different commitment",
+                format!("# scheme: {}\n# case {}\n", S::NAME, id));
+        }
+        if ser(c1[0].commitment()) == ser(c2[0].commitment()) {
+            ctx.rep.expect_fail(&id, &format!("{}/other-seed-equal", S::NAME), "independent RNG streams gave the same commitment",
+                format!("# scheme: {}\n# case {}\n", S::NAME, id));
+        }
+        // N repeated commitments from one running stream pairwise distinct
+        let mut seen = std::collections::BTreeSet::new();
+        let mut rr = rng.clone();
+        for _ in 0..4 {
+            let (c, _) = S::PC::commit(&ck, [&lp_h], Some(&mut rr)).unwrap();
+            seen.insert(ser(c[0].commitment()));
+        }
+        if seen.len() != 4 {
+            ctx.rep.expect_fail(&id, &format!("{}/repeated-commitments-collide", S::NAME), "repeated hiding commitments are not pairwise distinct",
+                format!("# scheme: {}\n# case {}\n", S::NAME, id));
+        }
+        // missing RNG
+        let no = guarded(|| S::PC::commit(&ck, [&lp_h], None));
+        if matches!(no, Ok(Ok(_))) {
+            ctx.rep.expect_fail(&id, &format!("{}/missing-rng-answered", S::NAME), "hiding commit without RNG returned a commitment",
+                format!("# scheme: {}\n# case {}\n", S::NAME, id));
+        }
+        // no hiding bound: deterministic, RNG untouched, differs from the hiding commitment
+        let mut r3 = CountRng::new(seed_rng.clone());
+        let (cn1, _) = S::PC::commit(&ck, [&lp_n], Some(&mut r3)).unwrap();
+        let (cn2, _) = S::PC::commit(&ck, [&lp_n], None).unwrap();
+        if r3.bytes != 0 || ser(cn1[0].commitment()) != ser(cn2[0].commitment()) {
+            ctx.rep.expect_fail(&id, &format!("{}/nonhiding-not-deterministic", S::NAME), "non-hiding commit used the RNG or is not deterministic",
+                format!("# scheme: {}\n# case {}\n", S::NAME, id));
+        }
+        if ser(cn1[0].commitment()) == ser(c1[0].commitment()) {
+            ctx.rep.expect_fail(&id, &format!("{}/hiding-not-blinded", S::NAME), "hiding commitment equals the non-hiding one",
+                format!("# scheme: {}\n# case {}\n", S::NAME, id));
+        }
+        ctx.rep.count(&format!("{}/bound-{}", S::NAME, bound.is_some()));
+        ctx.rep.case(&format!("{} hiding h={} bound={:?} deg={} rng-bytes={}", S::NAME, h, bound, poly.degree(), r1.bytes),
+            Some(format!("{}/{}/{:?}/{}", S::NAME, h, bound, poly.degree())));
+    }
+}
+
+pub fn c07_all(ctx: &mut Ctx) {
+    let n = ctx.n(15, 200);
+    c07::<Marlin>(ctx, n);
+    c07::<Sonic>(ctx, n);
+    c07::<Ipa>(ctx, n);
+    c07::<Pst13>(ctx, n);
+}
+
+// ------------------------------------------------------------------------------------------------
+// C08 at trait level: determinism, injectivity on samples, and (group schemes) naive key sums
+// ------------------------------------------------------------------------------------------------
+pub fn c08<S: Scheme>(ctx: &mut Ctx, n: usize, plain_part: &dyn Fn(&CK<S>, &S::P, &Comm<S>) -> Option<bool>)
+where
+    Pt<S>: Clone + Ord + std::fmt::Debug,
+{
+    for i in 0..n {
+        let id = format!("C08/{}/{}", S::NAME, i);
+        if !ctx.selected(&id) {
+            continue;
+        }
+        let mut rng = rng_for(ctx.seed, &format!("C08/{}", S::NAME), i as u64);
+        let sizes = S::sizes(&mut rng, ctx.thorough);
+        let pp = match S::PC::setup(sizes.max_degree, sizes.num_vars, &mut rng) {
+            Ok(p) => p,
+            Err(_) => continue,
+        };
+        let (ck, _vk) = match S::PC::trim(&pp, sizes.supported, 1, None) {
+            Ok(k) => k,
+            Err(_) => continue,
+        };
+        let d1 = range(&mut rng, 1, sizes.supported);
+        let pick = range(&mut rng, 0, 5);
+        let special = if pick < 2 { S::special_poly(&mut rng, &sizes, pick).map(|x| x.0) } else { None };
+        let p = match special {
+            Some(x) => x,
+            None => S::rand_poly(&mut rng, &sizes, d1),
+        };
+        let d2 = range(&mut rng, 1, sizes.supported);
+        let q = S::rand_poly(&mut rng, &sizes, d2);
+        let lp = LabeledPolynomial::new("p".to_string(), p.clone(), None, None);
+        let lq = LabeledPolynomial::new("q".to_string(), q.clone(), None, None);
+        // Hyrax commitments are always blinded: determinism is not claimed there
+        let deterministic = S::NAME != "hyrax";
+        let mut ra = rng.clone();
+        let mut rb = rng.clone();
+        let a = guarded(|| S::PC::commit(&ck, [&lp, &lq], Some(&mut ra)));
+        let b = guarded(|| S::PC::commit(&ck, [&lp, &lq], Some(&mut rb)));
+        let (ca, cb) = match (a, b) {
+            (Ok(Ok(x)), Ok(Ok(y))) => (x.0, y.0),
+            _ => {
+                ctx.rep.expect_fail(&id, &format!("{}/in-domain-commit-refused", S::NAME), "non-hiding commit refused",
+                    format!("# scheme: {}\n# case {}\n# sizes {:?}\n", S::NAME, id, sizes));
+                continue;
+            }
+        };
+        if deterministic && ser(ca[0].commitment()) != ser(cb[0].commitment()) {
+            ctx.rep.expect_fail(&id, &format!("{}/commit-not-deterministic", S::NAME), "equal polynomials gave different commitments",
+                format!("# scheme: {}\n# case {}\n", S::NAME, id));
+        }
+        if deterministic && ser(ca[0].commitment()) == ser(ca[1].commitment()) {
+            // p == q happens with negligible probability for random q
+            ctx.rep.expect_fail(&id, &format!("{}/commit-not-injective", S::NAME), "different polynomials gave equal commitments",
+                format!("# scheme: {}\n# case {}\n", S::NAME, id));
+        }
+        if let Some(ok) = plain_part(&ck, &p, ca[0].commitment()) {
+            if !ok {
+                ctx.rep.expect_fail(&id, &format!("{}/commit-not-key-defined", S::NAME), "commitment differs from the naive sum over the published key",
+                    format!("# scheme: {}\n# case {}\n# sizes {:?}\n", S::NAME, id, sizes));
+            }
+        }
+        ctx.rep.case(&format!("{} commit sizes={:?} deg={}", S::NAME, sizes, p.degree()), Some(format!("{}/{}/{:?}", S::NAME, p.degree(), sizes.num_vars)));
+    }
+}
+
+pub fn c08_all(ctx: &mut Ctx) {
+    use crate::props_c08::naive_sum;
+    use ark_ec::CurveGroup;
+    let n = ctx.n(12, 150);
+    c08::<Marlin>(ctx, n, &|ck, p, c| Some(naive_sum(&ck.powers, &p.coeffs).into_affine() == c.comm.0));
+    c08::<Sonic>(ctx, n, &|ck, p, c| Some(naive_sum(&ck.powers_of_g, &p.coeffs).into_affine() == c.0));
+    c08::<Ipa>(ctx, n, &|ck, p, c| Some(naive_sum(&ck.comm_key, &p.coeffs).into_affine() == c.comm));
+    c08::<Pst13>(ctx, n, &|_, _, _| None);
+    c08::<Hyrax>(ctx, n.min(20), &|_, _, _| None);
+    c08::<UniLigero>(ctx, n.min(20), &|_, _, _| None);
+    c08::<MlLigero>(ctx, n.min(20), &|_, _, _| None);
+    c08::<Brakedown>(ctx, n.min(20), &|_, _, _| None);
+}
+
+// ------------------------------------------------------------------------------------------------
+// C17 at trait level: out-of-domain requests must end in Err / abort
+// ------------------------------------------------------------------------------------------------
+pub fn c17<S: Scheme>(ctx: &mut Ctx, n: usize)
+where
+    Pt<S>: Clone + Ord + std::fmt::Debug,
+    Comm<S>: Clone,
+    SProof<S>: Clone,
+{
+    let refuse = |ctx: &mut Ctx, id: &str, kind: &str, answered: bool, detail: String| {
+        ctx.rep.count(&format!("{}/{}", S::NAME, kind));
+        ctx.rep.case(&format!("{} {} answered={}", S::NAME, kind, answered), Some(format!("{}/{}/{}", S::NAME, kind, id.rsplit('/').next().unwrap_or(""))));
+        if answered {
+            ctx.rep.expect_fail(id, &format!("{}/out-of-domain-answered/{}", S::NAME, kind),
+                &format!("out-of-domain request ({}) was answered instead of refused", kind),
+                format!("# scheme: {}\n# case {}\n# kind {}\n# {}\n", S::NAME, id, kind, detail));
+        }
+    };
+    // setup with zero degree / zero variables
+    {
+        let id = format!("C17/{}/setup", S::NAME);
+        if ctx.selected(&id) {
+            let mut rng = rng_for(ctx.seed, &format!("C17/{}/setup", S::NAME), 0);
+            let s0 = S::sizes(&mut rng, false);
+            if s0.num_vars.is_none() {
+                let r = guarded(|| S::PC::setup(0, None, &mut rng.clone()));
+                // linear codes ignore max_degree by design (transparent setup): only report group schemes
+                if S::SETUP_REFUSES_ZERO {
+                    refuse(ctx, &id, "setup-degree-0", matches!(r, Ok(Ok(_))), "setup(0, None)".into());
+                }
+            } else if S::NAME == "pst13" {
+                let r = guarded(|| S::PC::setup(s0.max_degree, Some(0), &mut rng.clone()));
+                refuse(ctx, &id, "setup-vars-0", matches!(r, Ok(Ok(_))), "setup(D, Some(0))".into());
+                let r = guarded(|| S::PC::setup(0, s0.num_vars, &mut rng.clone()));
+                refuse(ctx, &id, "setup-degree-0", matches!(r, Ok(Ok(_))), "setup(0, nv)".into());
+                let r = guarded(|| S::PC::setup(s0.max_degree, None, &mut rng.clone()));
+                refuse(ctx, &id, "setup-vars-none", matches!(r, Ok(Ok(_))), "setup(D, None)".into());
+            }
+        }
+    }
+    for i in 0..n {
+        let id = format!("C17/{}/{}", S::NAME, i);
+        if !ctx.selected(&id) {
+            continue;
+        }
+        let mut rng = rng_for(ctx.seed, &format!("C17/{}", S::NAME), i as u64);
+        let inst = match guarded(|| instance::<S>(&mut rng, false, 2)) {
+            Ok(Ok(x)) => x,
+            _ => continue,
+        };
+        let mut sizes = inst.sizes.clone();
+        sizes.supported = S::true_supported(&inst.ck, &sizes);
+        // (1) polynomial larger than the key supports
+        if S::BOUNDS || S::NAME == "pst13" {
+            let big = S::rand_poly(&mut rng, &Sizes { supported: sizes.supported + 1, max_degree: sizes.max_degree + 1, num_vars: sizes.num_vars }, sizes.supported + 1);
+            if big.degree() > sizes.supported {
+                let lp = LabeledPolynomial::new("big".to_string(), big, None, None);
+                let r = guarded(|| S::PC::commit(&inst.ck, [&lp], Some(&mut rng.clone())));
+                refuse(ctx, &id, "degree-supported+1", matches!(r, Ok(Ok(_))), format!("sizes {:?}", sizes));
+            }
+        }
+        // (2) degree bounds: not enforced by the key / below the degree / beyond supported
+        if S::BOUNDS {
+            let p = S::rand_poly(&mut rng, &sizes, sizes.supported);
+            let enforced = inst.bounds.clone().unwrap_or_default();
+            for cand in [1usize, sizes.supported.saturating_sub(1), sizes.supported, sizes.supported + 1, sizes.max_degree + 1] {
+                let out_of_domain = (S::BOUNDS_FROM_KEY && !enforced.contains(&cand)) || cand < p.degree()
+                    || (!S::BOUNDS_FROM_KEY && cand > sizes.supported);
+                if !out_of_domain || cand == 0 {
+                    continue;
+                }
+                let lp = LabeledPolynomial::new("b".to_string(), p.clone(), Some(cand), None);
+                let r = guarded(|| S::PC::commit(&inst.ck, [&lp], Some(&mut rng.clone())));
+                refuse(ctx, &id, "bad-degree-bound", matches!(r, Ok(Ok(_))), format!("bound {} enforced {:?} deg {}", cand, enforced, p.degree()));
+            }
+        }
+        // (3) hiding: zero where refused, beyond the key, missing RNG
+        if S::HIDING {
+            let p = S::rand_poly(&mut rng, &sizes, 1);
+            if S::HIDING_MIN > 0 {
+                let lp = LabeledPolynomial::new("h0".to_string(), p.clone(), None, Some(0));
+                let r = guarded(|| S::PC::commit(&inst.ck, [&lp], Some(&mut rng.clone())));
+                refuse(ctx, &id, "hiding-0", matches!(r, Ok(Ok(_))), "hiding_bound = Some(0)".into());
+            }
+            if S::NAME != "ipa" {
+                let lp = LabeledPolynomial::new("hbig".to_string(), p.clone(), None, Some(sizes.supported + 2));
+                let r = guarded(|| S::PC::commit(&inst.ck, [&lp], Some(&mut rng.clone())));
+                refuse(ctx, &id, "hiding-beyond-key", matches!(r, Ok(Ok(_))), format!("hiding_bound = supported+2 = {}", sizes.supported + 2));
+            }
+            let lp = LabeledPolynomial::new("norng".to_string(), p.clone(), None, Some(1));
+            let r = guarded(|| S::PC::commit(&inst.ck, [&lp], None));
+            refuse(ctx, &id, "hiding-no-rng", matches!(r, Ok(Ok(_))), "hiding_bound = Some(1), rng = None".into());
+        }
+        // (4) unknown polynomial / missing evaluation in batch calls
+        {
+            let (qs, ev) = query_set::<S>(&mut rng, &inst, 2, false);
+            let mut sp = fresh_sponge();
+            if let Ok(proof) = batch_open::<S>(&inst, &qs, &mut sp, &mut rng) {
+                let (l0, (pl0, pt0)) = qs.iter().next().cloned().unwrap();
+                let mut qs_unknown = qs.clone();
+                qs_unknown.insert(("nosuchpoly".to_string(), (pl0.clone(), pt0.clone())));
+                let mut sp2 = fresh_sponge();
+                let r = batch_open::<S>(&inst, &qs_unknown, &mut sp2, &mut rng);
+                refuse(ctx, &id, "open-unknown-poly", r.is_ok(), "query set names a polynomial that was not supplied".into());
+                let mut ev_unknown = ev.clone();
+                ev_unknown.insert(("nosuchpoly".to_string(), pt0.clone()), Fr::zero());
+                let mut vs = fresh_sponge();
+                let o = batch_check::<S>(&inst, &inst.comms, &qs_unknown, &ev_unknown, &proof, &mut vs, &mut rng);
+                refuse(ctx, &id, "check-unknown-poly", o.accepted(), "verifier query names an unknown commitment".into());
+                let mut ev_missing = ev.clone();
+                ev_missing.remove(&(l0.clone(), pt0.clone()));
+                let mut vs = fresh_sponge();
+                let o = batch_check::<S>(&inst, &inst.comms, &qs, &ev_missing, &proof, &mut vs, &mut rng);
+                refuse(ctx, &id, "check-missing-evaluation", o.accepted(), "an evaluation is missing".into());
+            }
+        }
+        // (5) wrong number of variables
+        if let Some(nv) = sizes.num_vars {
+            let wrong = Sizes { num_vars: Some(nv + 1), ..sizes.clone() };
+            let p = S::rand_poly(&mut rng, &wrong, 1);
+            let lp = LabeledPolynomial::new("nv".to_string(), p, None, None);
+            let r = guarded(|| S::PC::commit(&inst.ck, [&lp], Some(&mut rng.clone())));
+            // Hyrax: an odd number of variables is refused; linear codes accept any size (transparent)
+            // PST13: a polynomial declared over more variables is out of domain only if it really
+            // uses a variable the key does not have (otherwise it *is* a polynomial of the key's ring)
+            if (S::NAME == "pst13" && S::uses_var_at_least(lp_poly_ref(&lp), nv)) || S::NAME == "hyrax" {
+                refuse(ctx, &id, "wrong-num-vars", matches!(r, Ok(Ok(_))), format!("key nv {} poly nv {}", nv, nv + 1));
+            }
+            // point of the wrong length at open. PST13 (like ark-poly's `evaluate`) reads the first nv
+            // coordinates of a longer point, which is a consistent reading, so there the point is
+            // made too short instead.
+            let (qs, _ev) = query_set::<S>(&mut rng, &inst, 1, false);
+            let wrong_pt_sizes = if S::NAME == "pst13" {
+                if nv < 2 { continue; }
+                Sizes { num_vars: Some(nv - 1), ..sizes.clone() }
+            } else { wrong.clone() };
+            let badpt = S::rand_point(&mut rng, &wrong_pt_sizes);
+            let mut qs2 = QuerySet::new();
+            for (l, (pl, _)) in qs.iter() {
+                qs2.insert((l.clone(), (pl.clone(), badpt.clone())));
+            }
+            let mut sp = fresh_sponge();
+            let r = batch_open::<S>(&inst, &qs2, &mut sp, &mut rng);
+            // A prover that never reads the missing coordinate may still emit a proof; what must not
+            // happen is a positive verification result for a point outside the domain.
+            let answered = match r {
+                Err(_) => false,
+                Ok(proof) => {
+                    let mut ev2 = Evaluations::new();
+                    for (l, (_, pt)) in qs2.iter() {
+                        ev2.insert((l.clone(), pt.clone()), Fr::rand(&mut rng));
+                    }
+                    let mut vs = fresh_sponge();
+                    batch_check::<S>(&inst, &inst.comms, &qs2, &ev2, &proof, &mut vs, &mut rng).accepted()
+                }
+            };
+            refuse(ctx, &id, "point-wrong-length", answered, format!("point with {:?} coordinates for {} variables", wrong_pt_sizes.num_vars, nv));
+        }
+        // (6) mismatched labels between polynomials and commitments in `open`
+        if inst.polys.len() >= 2 {
+            let pt = S::rand_point(&mut rng, &sizes);
+            let mut comms = inst.comms.clone();
+            comms.swap(0, 1);
+            let mut sp = fresh_sponge();
+            let r = guarded(|| S::PC::open(&inst.ck, &inst.polys, &comms, &pt, &mut sp, &inst.states, Some(&mut rng.clone())));
+            if let Ok(Ok(proof)) = r {
+                // if answered, the proof must not verify for the (true) values against the honest order
+                let vals: Vec<Fr> = inst.polys.iter().map(|p| p.evaluate(&pt)).collect();
+                let mut vs = fresh_sponge();
+                let o = Outcome::from(guarded(|| S::PC::check(&inst.vk, &comms, &pt, vals.clone(), &proof, &mut vs, Some(&mut rng.clone()))));
+                // swapped commitments with unswapped values: a false statement unless polys coincide
+                let answered_wrong = o.accepted() && ser(inst.comms[0].commitment()) != ser(inst.comms[1].commitment())
+                    && vals[0] != vals[1];
+                refuse(ctx, &id, "mismatched-labels", answered_wrong, "commitments listed in a different order than polynomials".into());
+            } else {
+                refuse(ctx, &id, "mismatched-labels", false, String::new());
+            }
+        }
+    }
+}
+
+pub fn c17_all(ctx: &mut Ctx) {
+    let n = ctx.n(8, 80);
+    c17::<Marlin>(ctx, n);
+    c17::<Sonic>(ctx, n);
+    c17::<Ipa>(ctx, n);
+    c17::<Pst13>(ctx, n);
+    c17::<Hyrax>(ctx, n);
+    c17::<UniLigero>(ctx, n);
+    c17::<MlLigero>(ctx, n);
+    c17::<Brakedown>(ctx, n);
 }
